@@ -475,7 +475,7 @@ def skew(rng, spec, nshear=2):
     return Spec(spec.label + "+skew", A2, g2, basis, spec.spins, Aq), U
 
 
-def afm_supercell(spec, w, base_spins=None, label=None):
+def afm_supercell(spec, w, base_spins=None, label=None, flip=None):
     """index-2 magnetic supercell: the sublattice {n : w.n even} of the spec's lattice, every atom repeated in the two
     cosets, the spin reversed in the odd coset (an ANTI-translation: pure translation combined with spin reversal).
     w = e_k doubles the cell along a_k; w = (1,1,1) keeps the 3-fold axis along a_1+a_2+a_3 of cubic/rhombohedral cells.
@@ -494,10 +494,11 @@ def afm_supercell(spec, w, base_spins=None, label=None):
     spins0 = base_spins if base_spins is not None else (spec.spins if spec.spins is not None else [[1 for _ in ul] for ul in spec.basis])
     ek = [Fr(int(i == k)) for i in range(d)]
     basis, spins = [], []
-    for ul, sl in zip(spec.basis, spins0):
+    flip = flip if flip is not None else [True] * len(spec.basis)      # flip[c] False: species c keeps its spin (ferromagnetic sublattice)
+    for ul, sl, fl in zip(spec.basis, spins0, flip):
         bl, pl = [], []
         for u, s0 in zip(ul, sl):
-            for x, sgn in (([Fr(0)] * d, 1), (ek, -1)):
+            for x, sgn in (([Fr(0)] * d, 1), (ek, -1 if fl else 1)):
                 v = tuple(mod1(y) for y in fmat_vec(Ni, [a + b for a, b in zip(u, x)]))
                 bl.append(v)
                 pl.append(tuple(sgn * c for c in s0) if isinstance(s0, tuple) else sgn * s0)
@@ -545,6 +546,25 @@ def texture_specs():
     out.append(Spec("pyrochlore-all-in-all-out", Af, gf, [list(pyro)], [list(axes)], fcc))
     out.append(Spec("pyrochlore-2in-2out", Af, gf, [list(pyro)], [[axes[0], axes[1], tuple(-x for x in axes[2]), tuple(-x for x in axes[3])]], fcc))
     out.append(Spec("pyrochlore-with-spectator", Af, gf, [list(pyro), [(h, h, h)]], [list(axes), [(0.0, 0.0, 0.0)]], fcc))
+    # MIXED spin representation: a non-magnetic species with the scalar spin 0 (what Crystal.addbasis produces) next to a species with
+    # vector moments -- listed first, listed last, and the all-vector form with zero vectors
+    tet = [[i, o, o], [o, i, o], [o, o, Fr(13, 10)]]
+    At = np.array([[float(x) for x in r] for r in tet]); gt = fmat_mul(fmat_T(tet), tet)
+    cub = [[i, o, o], [o, i, o], [o, o, i]]
+    Ac = np.eye(3); gc = fmat_mul(fmat_T(cub), cub)
+    X, M1 = [(o, o, o)], [(h, h, h)]
+    M2 = [(h, h, Fr(1, 4)), (h, h, Fr(3, 4))]
+    c15 = (math.cos(math.radians(15)), math.sin(math.radians(15)), 0.0); c15m = (-math.cos(math.radians(15)), math.sin(math.radians(15)), 0.0)
+    for nm, Aq_, A_, g_, mag, vec in (("tet-moment-x", tet, At, gt, M1, [(1.0, 0.0, 0.0)]), ("tet-moment-z", tet, At, gt, M1, [(0.0, 0.0, 1.0)]),
+                                      ("tet-moment-110", tet, At, gt, M1, [(r2, r2, 0.0)]), ("cubic-moment-111", cub, Ac, gc, M1, [(r3, r3, r3)]),
+                                      ("cubic-moment-x", cub, Ac, gc, M1, [(1.0, 0.0, 0.0)]), ("tet-canted-afm", tet, At, gt, M2, [c15, c15m]),
+                                      ("tet-afm-x", tet, At, gt, M2, [(1.0, 0.0, 0.0), (-1.0, 0.0, 0.0)])):
+        out.append(Spec("mixed-" + nm + "-scalar0-first", A_, g_, [list(X), list(mag)], [[0], list(vec)], Aq_))
+        out.append(Spec("mixed-" + nm + "-scalar0-last", A_, g_, [list(mag), list(X)], [list(vec), [0]], Aq_))
+        out.append(Spec("mixed-" + nm + "-zero-vector", A_, g_, [list(X), list(mag)], [[(0.0, 0.0, 0.0)], list(vec)], Aq_))
+    # hexagonal: kagome moments with a non-magnetic scalar-0 species at the hexagon centre, listed first
+    out.append(Spec("mixed-kagome3d-scalar0-first", A3, g3, [[(o, o, o)], list(kag3)], [[0], [ang(a, 3) for a in (30, 150, 270)]]))
+    out.append(Spec("mixed-kagome2d-scalar0-first", A2, g2, [[(o, o)], list(kag)], [[0], [ang(a) for a in (90, 210, 330)]]))
     return out
 
 
